@@ -333,9 +333,9 @@ func seq(n int) []int {
 }
 
 type winSummary struct {
-	Min, Avg   int64
-	MaxInf, N  int
-	Drop       bool
+	Min, Avg  int64
+	MaxInf, N int
+	Drop      bool
 }
 
 func summarise(w *measurements.ImmutableSampleWindow) winSummary {
